@@ -205,7 +205,7 @@ package packets
 // verif:func packets.Packet.Copy
 //@ ensures header: r0.FixedHeader.Type == pk.FixedHeader.Type && r0.FixedHeader.Qos == pk.FixedHeader.Qos && r0.FixedHeader.Retain == pk.FixedHeader.Retain && !r0.FixedHeader.Dup
 //@ ensures message-kept: r0.TopicName == pk.TopicName && sameBytes(r0.Payload, pk.Payload) && r0.Created == pk.Created && r0.Expiry == pk.Expiry && r0.Origin == pk.Origin && r0.ProtocolVersion == pk.ProtocolVersion
-//@ ensures properties-kept: r0.Properties.ContentType == pk.Properties.ContentType && r0.Properties.ResponseTopic == pk.Properties.ResponseTopic && r0.Properties.MessageExpiryInterval == pk.Properties.MessageExpiryInterval && r0.Properties.PayloadFormat == pk.Properties.PayloadFormat
+//@ ensures properties-kept: r0.Properties.ContentType == pk.Properties.ContentType && r0.Properties.ResponseTopic == pk.Properties.ResponseTopic && r0.Properties.MessageExpiryInterval == pk.Properties.MessageExpiryInterval && r0.Properties.PayloadFormat == pk.Properties.PayloadFormat && (r0.Properties.PayloadFormatFlag <==> pk.Properties.PayloadFormatFlag)
 //@ ensures correlation-data-kept: sameBytes(r0.Properties.CorrelationData, pk.Properties.CorrelationData)
 //@ ensures user-properties-kept: len(r0.Properties.User) == len(pk.Properties.User) && (forall i int :: 0 <= i && i < len(pk.Properties.User) ==> r0.Properties.User[i] == pk.Properties.User[i])
 //@ ensures packet-id-cleared: !allowTransfer ==> r0.PacketID == 0 && r0.Properties.TopicAlias == 0 && !r0.Properties.TopicAliasFlag
